@@ -12,7 +12,7 @@ RULE = ("converged traced runs (rounds < limit) with K>=2 and every cluster non-
         "incl. 1, 2, 255..258, 511..513, 1025; biased/unbiased covariances; one or all sensors translated by up to 1e6 spreads) on which the metric "
         "function is called directly")
 ASSUMPTIONS = ["translation invariance is evaluated through the definition (which is invariant) per state"]
-SHARD_TIMEOUT = {"quick": 900, "thorough": 3400}
+SHARD_TIMEOUT = {"quick": 300, "thorough": 3400}
 MIX = {"single:converge": 6, "single:small": 2, "joint:converge": 1}
 PROPS = ("C17",)
 
